@@ -7,7 +7,7 @@ at that position by a non-negated atom of the query. For a query made of a singl
 exactly the successive leftmost non-overlapping occurrences, and for a single regular expression they cover exactly
 the bytes of the engine's non-empty matches (newline bytes excluded in line mode).
 -/
-import ZoektModel.C02.Lemmas8
+import ZoektModel.C02.Lemmas9
 import ZoektModel.Generated.C02Consts
 namespace ZoektModel.C02
 open ZoektModel ZoektModel.C03
@@ -113,6 +113,62 @@ example : gatherTree [102] (.or [(true, .and [(true, .atom 0 [⟨false, 4, 3⟩,
     (true, .not (.atom 1 [⟨false, 20, 1⟩])), (true, .boost (.atom 2 [⟨false, 2, 3⟩]))]) =
     [⟨false, 0, 3⟩, ⟨false, 4, 3⟩] := by
   simp [gatherTree, visit, visitList]; decide
+
+/-- **C02, the candidates are real**: `candidateMatch.matchContent` — the verification every substring candidate
+    proposed by the trigram stage goes through before it can be gathered and reported — accepts a candidate at byte
+    offset `off` exactly when the pattern occurs there (byte for byte; up to the case of ASCII letters, *and nothing
+    else*, when the atom is case-insensitive), and reports the pattern's length as the match length. For every pattern,
+    content and offset. -/
+theorem verify_exact (pattern content : Bytes) (off : Nat) (caseSensitive : Bool) (hoff : off ≤ content.length) :
+    checkVerify pattern content off caseSensitive (matchContentASCII pattern content off caseSensitive) = true := by
+  have hsl : ∀ n, off + n ≤ content.length → (Bytes.slice content off (off + n)).length = n := by
+    intro n h; simp [Bytes.slice]; omega
+  have hocc : ∀ size, occursAt pattern content off size caseSensitive = true ↔
+      size = pattern.length ∧ off + size ≤ content.length ∧
+      (List.zip pattern (Bytes.slice content off (off + size))).all
+        (fun (p, c) => if caseSensitive then p == c else asciiLower p == asciiLower c) = true := by
+    intro size
+    simp only [occursAt, Bool.and_eq_true, beq_iff_eq, decide_eq_true_eq, and_assoc]
+  cases caseSensitive with
+  | true =>
+    simp only [matchContentASCII, if_true]
+    by_cases h : off + pattern.length ≤ content.length ∧ Bytes.slice content off (off + pattern.length) = pattern
+    · rw [if_pos h]
+      show occursAt pattern content off pattern.length true = true
+      rw [hocc]
+      refine ⟨rfl, h.1, ?_⟩
+      simp only [if_true]
+      exact (zip_all_beq_iff pattern _ (hsl _ h.1).symm).mpr h.2
+    · rw [if_neg h]
+      show (!occursAt pattern content off pattern.length true) = true
+      rw [Bool.not_eq_true', Bool.eq_false_iff]
+      intro hh
+      rw [hocc] at hh
+      simp only [if_true] at hh
+      exact h ⟨hh.2.1, (zip_all_beq_iff pattern _ (hsl _ hh.2.1).symm).mp hh.2.2⟩
+  | false =>
+    simp only [matchContentASCII, Bool.false_eq_true, if_false]
+    rw [foldEqASCII_spec]
+    have hz : List.zip pattern (Bytes.slice content off (off + pattern.length)) = List.zip pattern (content.drop off) := by
+      simp only [Bytes.slice, Nat.add_sub_cancel_left]
+      exact zip_take_length pattern _
+    by_cases h : pattern.length ≤ (content.drop off).length ∧
+        (List.zip pattern (content.drop off)).all (fun (p, c) => asciiLower p == asciiLower c) = true
+    · rw [if_pos h, Nat.zero_add]
+      show occursAt pattern content off pattern.length false = true
+      rw [hocc, hz]
+      have := h.1; simp only [List.length_drop] at this
+      exact ⟨rfl, by omega, by simpa using h.2⟩
+    · rw [if_neg h]
+      show (!occursAt pattern content off pattern.length false) = true
+      rw [Bool.not_eq_true', Bool.eq_false_iff]
+      intro hh
+      rw [hocc, hz] at hh
+      exact h ⟨by simp only [List.length_drop]; omega, by simpa using hh.2.2⟩
+
+example : matchContentASCII [102, 111, 111, 123] [120, 70, 79, 79, 123, 121] 1 false = some 4 ∧
+    matchContentASCII [102, 111, 111, 123] [120, 70, 79, 79, 91, 121] 1 false = none ∧
+    matchContentASCII [101, 42, 115] [101, 10, 115] 0 false = none := by decide
 
 /-- the order in which the atoms' candidates were collected (the order of the match tree's children) does not matter -/
 theorem gather_order_insensitive (name : Bytes) (cands cands' : List Cand) (hp : cands'.Perm cands) :
